@@ -711,6 +711,10 @@ class PropertyFilter:
         if self.is_not_defined:
             return not bool(indexes[myindex])
         subindexes: SubIndexDict = create_subindexes(indexes, myindex)
+        # The property has to exist, whatever the children say (a negative
+        # param-filter is satisfied by nothing at all).
+        if not indexes.get(myindex, True):
+            return False
         if not self.children and not self.time_range:
             return bool(indexes[myindex])
 
